@@ -717,7 +717,7 @@ func (fv *FV) fieldTerm(st *State, v Term, name string) Term {
 		}
 		s := fv.sortOf(t)
 		_ = named
-		return Term{S: fmt.Sprintf("(%s_%s %s)", s, name, v.S), Sort: fv.sortOf(f.Type()), T: f.Type()}
+		return Term{S: fmt.Sprintf("(%s_%s %s)", s, symName(name), v.S), Sort: fv.sortOf(f.Type()), T: f.Type()}
 	}
 	fv.sfail("field %s of non-struct %s", name, t)
 	return Term{}
